@@ -16,8 +16,15 @@ PROPS = ["C12"]
 
 INVARIANTS = ["WalletSelectsOnlySatisfying", "NoPartialSelection", "NoPanic", "WalletVerifierAgree",
               "ForgedMappingRejected", "ExtractedValueIsPresentValue"]
-EXPECTED_DESCRIPTIVE_VIOLATIONS = ["WalletSelectsOnlySatisfying", "NoPartialSelection", "NoPanic", "WalletVerifierAgree",
-                                   "ForgedMappingRejected"]
+# deviation constant (FALSE = the code still deviates) -> invariants the descriptive model then violates
+DEVIATION_BREAKS = {"PickMaxOptional": ["NoPanic"], "ArrayNoFallThrough": ["NoPanic", "WalletSelectsOnlySatisfying"],
+                    "MapEveryDescriptor": ["NoPartialSelection"], "MaxBoundsSelection": ["NoPartialSelection"],
+                    "WalletNormalises": ["WalletVerifierAgree"], "ResolveChecksEveryEntry": ["ForgedMappingRejected"]}
+
+
+def deviation_constants(cfg):
+    txt = open(os.path.join(vlib.SPEC, "cfg", cfg)).read()
+    return {k: v == "TRUE" for k, v in re.findall(r"^\s*(\w+) = (TRUE|FALSE)\s*$", txt, re.M) if k in DEVIATION_BREAKS}
 ACTIONS = ["ChooseDef", "ChooseWallet", "WalletMatch", "Build", "MutateSubmission", "VerifierValidate"]
 WORKERS = 8
 
@@ -214,7 +221,11 @@ def run(prop, tier, seed, replay=None):
         if missing:
             raise Inconclusive("vacuity: actions never fired in the model: %s" % missing)
         # every deviation constant is observable: the descriptive model violates the corresponding invariant
-        for inv in EXPECTED_DESCRIPTIVE_VIOLATIONS:
+        devs = deviation_constants("Pex.gen.%s.cfg" % tier)
+        expected = sorted({inv for k, on in devs.items() if not on for inv in DEVIATION_BREAKS[k]})
+        for inv in expected:
+            if deviation_constants("Pex.descr.%s.cfg" % inv) != devs:
+                raise Inconclusive("spec/cfg/Pex.descr.%s.cfg does not carry the deviation constants of Pex.gen.%s.cfg" % (inv, tier))
             d = vlib.tlc("MCPex", "Pex.descr.%s.cfg" % inv, workers=WORKERS, timeout=900)
             if d.error:
                 raise Inconclusive("TLC Pex.descr.%s: %s" % (inv, d.error))
